@@ -473,7 +473,12 @@ func writeUnionConverters(w *formatting.IndentedWriter, unionType *dsl.Generaliz
 					for i, c := range unionType.Cases {
 						fmt.Fprintf(w, "case %d:\n", i)
 						w.Indented(func() {
-							fmt.Fprintf(w, "j = ordered_json{ {\"%s\", std::get<%s>(value)} };\n", c.Tag, common.TypeSyntax(c.Type))
+							if c.IsNullType() {
+								// null is written as a JSON null, tagged or not (as the Python backend does)
+								w.WriteStringln("j = nullptr;")
+							} else {
+								fmt.Fprintf(w, "j = ordered_json{ {\"%s\", std::get<%s>(value)} };\n", c.Tag, common.TypeSyntax(c.Type))
+							}
 							w.WriteStringln("break;")
 						})
 					}
@@ -503,6 +508,14 @@ func writeUnionConverters(w *formatting.IndentedWriter, unionType *dsl.Generaliz
 
 				w.WriteStringln("throw std::runtime_error(\"Invalid union value\");")
 			} else {
+				if unionType.Cases.HasNullOption() {
+					w.WriteStringln("if (j.is_null()) {")
+					w.Indented(func() {
+						w.WriteStringln("value = std::monostate{};")
+						w.WriteStringln("return;")
+					})
+					w.WriteStringln("}")
+				}
 				w.WriteStringln("auto it = j.begin();")
 				w.WriteStringln("std::string tag = it.key();")
 				for _, v := range unionType.Cases {
